@@ -153,3 +153,105 @@ Proof.
   exists c2, ([] ++ [] ++ e3 ++ [ENotify q']), q', r'. split; [reflexivity|]. ev_simpl. rewrite Q1, Q2, Q3. cbn.
   split; [reflexivity|]. split; [reflexivity|]. split; [reflexivity|]. split; [exact Hq'|]. split; [congruence|]. split; [exact Hm|exact Ht'].
 Qed.
+
+(* the whole receive path of a QoS 1 / QoS 2 PUBLISH with automatic responses: the application is notified of exactly one
+   packet carrying the topic the ghost resolves, and the acknowledgement is requested *)
+From MQ Require Import Conn.PairQos5 Conn.PairSeq5.
+Lemma tracks_kf_recv c1 c : c_ta_recv c1 = c_ta_recv c -> forall r, c_ta_recv c = Some r -> c_ta_recv c1 = Some r.
+Proof. intros -> r H. exact H. Qed.
+
+Lemma post_keeps_tar c : c_ta_recv (fst (send_post_process c)) = c_ta_recv c.
+Proof. unfold send_post_process. destruct (c_is_client c); [destruct (0 <? _)|]; reflexivity. Qed.
+Lemma refresh_keeps_tar c : c_ta_recv (fst (refresh_pingreq_recv c)) = c_ta_recv c.
+Proof. unfold refresh_pingreq_recv. destruct (negb _); reflexivity. Qed.
+
+Lemma ack_keeps_tar g c t id : match send_puback_like c (ack_pkt g t V50 id None) with Ok (c1, _) => c_ta_recv c1 = c_ta_recv c | Panic _ => True end.
+Proof.
+  unfold send_puback_like. destruct (_ && _); [reflexivity|]. destruct (negb _); [reflexivity|].
+  match goal with |- context [send_and_post ?x _ _ _] => set (cx := x) end.
+  assert (Hx : c_ta_recv cx = c_ta_recv c) by (unfold cx; destruct (version_eqb _ _); [destruct (_ || _); [reflexivity|destruct (_ && _); reflexivity]|reflexivity]).
+  clearbody cx. unfold send_and_post. pose proof (post_keeps_tar cx) as Hy. destruct (send_post_process cx) as [c4 e4]. cbn [fst] in Hy. congruence.
+Qed.
+
+Lemma resolve_keeps g c q :
+  match resolve_recv_alias g c q with
+  | Ok (c', _, false, _) => KF c' c /\ c_qos2 c' = c_qos2 c /\ c_publish_recv c' = c_publish_recv c
+  | _ => True
+  end.
+Proof.
+  assert (Herr : forall e, match bindr (handle_v5_error c e) (fun '(c0, ev) => Ok (c0, q, true, ev)) with
+                           | Ok (c', _, false, _) => KF c' c /\ c_qos2 c' = c_qos2 c /\ c_publish_recv c' = c_publish_recv c | _ => True end).
+  { intro e. destruct (handle_v5_error c e) as [[c0 ev]|]; cbn [bindr]; exact I. }
+  assert (Hsame : KF c c /\ c_qos2 c = c_qos2 c /\ c_publish_recv c = c_publish_recv c) by (split; [apply kf_refl|split; reflexivity]).
+  unfold resolve_recv_alias. destruct (topic_empty q).
+  - destruct (k_alias q) as [a|]; [|apply Herr]. destruct (alias_out_of_range c a); [apply Herr|].
+    destruct (c_ta_recv c) as [r|]; [|exact Hsame]. destruct (tar_get r a); [exact Hsame|apply Herr].
+  - destruct (k_alias q) as [a|]; [|exact Hsame]. destruct (alias_out_of_range c a); [apply Herr|].
+    destruct (c_ta_recv c) as [r|]; [|exact Hsame]. destruct (tar_insert r (k_topic q) a) as [r'|]; cbn [bindr]; [|exact I].
+    split; [unfold KF; repeat split|split; reflexivity].
+Qed.
+
+Theorem deliver_qos1_with_alias g c r G q t :
+  ready5 c -> c_auto_pub c = true -> c_ta_recv c = Some r -> tracks r G ->
+  (match k_alias q with Some a => 1 <= a <= tr_max r | None => True end) ->
+  k_type q = T_PUBLISH -> k_qos q = 1 -> recv_quota_left c -> ack_fits g c -> rx_topic (rx_step G q) q = Some t ->
+  exists c' e q' r', deliver g c q = Ok (c', e) /\ notifies e = [q'] /\ sends e = [ack_pkt g T_PUBACK V50 (k_pid q) None] /\ errors e = [] /\
+                     k_topic q' = t /\ c_ta_recv c' = Some r' /\ tr_max r' = tr_max r /\ tracks r' (rx_step G q) /\
+                     c_publish_recv c' = del (k_pid q) (ins (k_pid q) (c_publish_recv c)).
+Proof.
+  intros [Rv Rs] Ha Hr Ht Hrg Hty Hq Hrq Hfit Hres.
+  unfold deliver, dispatch_recv. rewrite Hty, Rv.
+  change (T_PUBLISH =? 1) with false. change (T_PUBLISH =? 2) with false. change (T_PUBLISH =? 3) with true. cbn [version_eqb]. cbv iota.
+  unfold recv_publish_v5. cbv zeta. rewrite Hq. change (1 =? 0) with false. change (1 =? 1) with true. change (1 =? 2) with false. cbn [negb andb].
+  rewrite (recv_not_over c Hrq), Rs, Ha. cbn [andb].
+  unfold note_inbound. rewrite Hq. change (negb (1 =? 0)) with true. cbv iota.
+  set (c0 := set_publish_recv c (ins (k_pid q) (c_publish_recv c))).
+  destruct (receiver_implements_ghost g c0 r G q t Hr Ht Hrg Hres) as (c1 & q' & r' & E & Hq' & Hr' & Hm & Ht').
+  pose proof (resolve_keeps g c0 q) as HK. rewrite E in HK. destruct HK as (K1 & Q1 & P1). rewrite E. cbn [bindr].
+  unfold note_handled. rewrite Hq. change (1 =? 2) with false. cbv iota.
+  assert (R0 : ready5 c0) by (split; assumption). assert (F0 : ack_fits g c0) by exact Hfit.
+  pose proof (ready5_kf _ _ K1 R0) as R1. pose proof (ack_fits_kf g _ _ K1 F0) as F1.
+  pose proof (auto_ack5_x g c1 T_PUBACK (k_pid q) R1 F1 (or_introl eq_refl)) as H. pose proof (ack_keeps_tar g c1 T_PUBACK (k_pid q)) as HT.
+  destruct (send_puback_like c1 _) as [[c2 e1]|]; cbn [bindr]; [|destruct H]. destruct H as (H1 & H2 & H3 & KK & Q & P).
+  change ((T_PUBACK =? T_PUBACK) || (T_PUBACK =? T_PUBCOMP)) with true in P. cbv iota in P.
+  pose proof (refresh_quiet c2) as QQ. pose proof (kf_refresh c2) as R. pose proof (refresh_keeps_tar c2) as RT. cbv zeta in QQ.
+  destruct (refresh_pingreq_recv c2) as [c3 e2]. cbn [fst snd] in *. destruct QQ as (Q1' & Q2' & Q3' & _), R as (R1' & _ & R3').
+  exists c3, (e1 ++ [] ++ e2 ++ [ENotify q']), q', r'. split; [reflexivity|].
+  ev_simpl. rewrite H1, H2, H3, Q1', Q2', Q3'. cbn.
+  do 3 (split; [reflexivity|]). split; [exact Hq'|]. split; [congruence|]. split; [exact Hm|]. split; [exact Ht'|].
+  rewrite R3', P, P1. reflexivity.
+Qed.
+
+Theorem deliver_qos2_with_alias g c r G q t :
+  ready5 c -> c_auto_pub c = true -> c_ta_recv c = Some r -> tracks r G ->
+  (match k_alias q with Some a => 1 <= a <= tr_max r | None => True end) ->
+  k_type q = T_PUBLISH -> k_qos q = 2 -> mem (k_pid q) (c_qos2 c) = false -> recv_quota_left c -> ack_fits g c ->
+  rx_topic (rx_step G q) q = Some t ->
+  exists c' e q' r', deliver g c q = Ok (c', e) /\ notifies e = [q'] /\ sends e = [ack_pkt g T_PUBREC V50 (k_pid q) None] /\ errors e = [] /\
+                     k_topic q' = t /\ c_ta_recv c' = Some r' /\ tr_max r' = tr_max r /\ tracks r' (rx_step G q) /\
+                     c_qos2 c' = ins (k_pid q) (c_qos2 c) /\ c_publish_recv c' = ins (k_pid q) (c_publish_recv c).
+Proof.
+  intros [Rv Rs] Ha Hr Ht Hrg Hty Hq Hn Hrq Hfit Hres.
+  unfold deliver, dispatch_recv. rewrite Hty, Rv.
+  change (T_PUBLISH =? 1) with false. change (T_PUBLISH =? 2) with false. change (T_PUBLISH =? 3) with true. cbn [version_eqb]. cbv iota.
+  unfold recv_publish_v5. cbv zeta. rewrite Hq. change (2 =? 0) with false. change (2 =? 1) with false. change (2 =? 2) with true. cbn [negb andb].
+  rewrite (recv_not_over c Hrq), Rs, Ha, Hn. cbn [andb orb].
+  unfold note_inbound. rewrite Hq. change (negb (2 =? 0)) with true. cbv iota.
+  set (c0 := set_publish_recv c (ins (k_pid q) (c_publish_recv c))).
+  destruct (receiver_implements_ghost g c0 r G q t Hr Ht Hrg Hres) as (c1 & q' & r' & E & Hq' & Hr' & Hm & Ht').
+  pose proof (resolve_keeps g c0 q) as HK. rewrite E in HK. destruct HK as (K1 & Q1 & P1). rewrite E. cbn [bindr].
+  unfold note_handled. rewrite Hq. change (2 =? 2) with true. cbv iota.
+  set (c1' := set_qos2 c1 (ins (k_pid q) (c_qos2 c1))).
+  assert (R0 : ready5 c0) by (split; assumption). assert (F0 : ack_fits g c0) by exact Hfit.
+  assert (R1 : ready5 c1') by exact (ready5_kf _ _ K1 R0). assert (F1 : ack_fits g c1') by exact (ack_fits_kf g _ _ K1 F0).
+  pose proof (auto_ack5_x g c1' T_PUBREC (k_pid q) R1 F1 (or_intror (or_introl eq_refl))) as H. pose proof (ack_keeps_tar g c1' T_PUBREC (k_pid q)) as HT.
+  destruct (send_puback_like c1' _) as [[c2 e1]|]; cbn [bindr]; [|destruct H]. destruct H as (H1 & H2 & H3 & KK & Q & P).
+  change ((T_PUBREC =? T_PUBACK) || (T_PUBREC =? T_PUBCOMP)) with false in P. cbv iota in P.
+  pose proof (refresh_quiet c2) as QQ. pose proof (kf_refresh c2) as R. pose proof (refresh_keeps_tar c2) as RT. pose proof (refresh_silent c2) as (_ & RQ). cbv zeta in QQ.
+  destruct (refresh_pingreq_recv c2) as [c3 e2]. cbn [fst snd] in *. destruct QQ as (Q1' & Q2' & Q3' & _), R as (R1' & _ & R3').
+  exists c3, ([] ++ e1 ++ e2 ++ [ENotify q']), q', r'. split; [reflexivity|].
+  ev_simpl. rewrite H1, H2, H3, Q1', Q2', Q3'. cbn.
+  do 3 (split; [reflexivity|]). split; [exact Hq'|]. split; [rewrite RT, HT; exact Hr'|]. split; [exact Hm|]. split; [exact Ht'|].
+  split; [rewrite RQ, Q; unfold c1'; conn_simpl_goal; rewrite Q1; reflexivity|].
+  rewrite R3', P. unfold c1'. conn_simpl_goal. rewrite P1. reflexivity.
+Qed.
